@@ -53,3 +53,7 @@ verus! {
 pub assume_specification<T> [<[T]>::reverse] (s: &mut [T])
     ensures final(s)@ == old(s)@.reverse();
 }
+verus! {
+pub assume_specification [std::time::Duration::checked_add] (a: std::time::Duration, b: std::time::Duration) -> (r: Option<std::time::Duration>)
+    ensures match r { Some(d) => dur(d) == dur(a) + dur(b), None => dur(a) + dur(b) > DUR_MAX() };
+}
